@@ -59,8 +59,8 @@ def takePatterns : List String → Option (Patterns × List String)
     else none
   | [] => none
 
-def showSeg (p : PathState) (x : String × Nat × Nat) : String :=
-  x.1 ++ "=" ++ toString x.2.1 ++ "-" ++ toString x.2.2 ++ ":" ++
+def showSeg (p : PathState) (x : Name × Nat × Nat) : String :=
+  String.ofList x.1 ++ "=" ++ toString x.2.1 ++ "-" ++ toString x.2.2 ++ ":" ++
     (match sliceBytes? p.path x.2.1 x.2.2 with | some v => hexOfChars v | none => "!")
 
 /-- `Path::iter()` slices every segment; one bad span makes the whole iteration panic, and the
